@@ -147,7 +147,6 @@ RECURSIVE SumSeq(_, _)
 SumSeq(f, n) == IF n = 0 THEN 0 ELSE f[n] + SumSeq(f, n - 1)
 OwnSize(ob)   == Len(VNames(ob)) * ob.L
 OwnBytes(ob)  == SumSeq([i \in 1..Len(ob.index) |-> ob.L * ob.series[ob.index[i]].w], Len(ob.index))
-TreeSeq(O, o) == LET S == Owned(O, o) IN [i \in 1..Len(O) |-> IF i \in S THEN 1 ELSE 0]
 Size(O, o)    == SumSeq([i \in 1..Len(O) |-> IF i \in Owned(O, o) THEN OwnSize(O[i]) ELSE 0], Len(O))     \* linkers.py:131-142
 NBytes(O, o)  == SumSeq([i \in 1..Len(O) |-> IF i \in Owned(O, o) THEN OwnBytes(O[i]) ELSE 0], Len(O))    \* linkers.py:144-149
 
@@ -367,30 +366,16 @@ Do(op) ==
   /\ prev' = [objs |-> objs, cls |-> cls]
   /\ nops' = nops + 1
 
+(* One disjunct for the whole alphabet: TLC re-evaluates (and normalises) the alphabet set once per   *)
+(* disjunct, so fifteen per-operation disjuncts cost a factor five; which operations were taken is  *)
+(* measured from the emitted histories instead of from TLC's action coverage.                       *)
 Offered == Alphabet(objs, nops)
-DoAddVariable   == \E op \in Offered : op.op = "AddVariable" /\ Do(op)
-DoSetAttr       == \E op \in Offered : op.op = "SetAttr" /\ Do(op)
-DoSetItem       == \E op \in Offered : op.op = "SetItem" /\ Do(op)
-DoSetLabel      == \E op \in Offered : op.op = "SetLabel" /\ Do(op)
-DoSetSlice      == \E op \in Offered : op.op = "SetSlice" /\ Do(op)
-DoSetPos        == \E op \in Offered : op.op = "SetPos" /\ Do(op)
-DoReplaceValues == \E op \in Offered : op.op = "ReplaceValues" /\ Do(op)
-DoSetValues     == \E op \in Offered : op.op = "SetValues" /\ Do(op)
-DoAddAttribute  == \E op \in Offered : op.op = "AddAttribute" /\ Do(op)
-DoToggleStrict  == \E op \in Offered : op.op = "ToggleStrict" /\ Do(op)
-DoCopy          == \E op \in Offered : op.op = "Copy" /\ Do(op)
-DoNewSibling    == \E op \in Offered : op.op = "NewSibling" /\ Do(op)
-DoMutateList    == \E op \in Offered : op.op = "MutateList" /\ Do(op)
-DoSetLagsLeads  == \E op \in Offered : op.op = "SetLagsLeads" /\ Do(op)
-DoSolve         == \E op \in Offered : op.op = "Solve" /\ Do(op)
 
 Init == \E c \in Inits :
           /\ objs = c.objs /\ cls = c.cls /\ last = "none" /\ hint = "" /\ lastop = Op0
           /\ prev = [objs |-> c.objs, cls |-> c.cls] /\ nops = 0
 
-Next == \/ DoAddVariable \/ DoSetAttr \/ DoSetItem \/ DoSetLabel \/ DoSetSlice \/ DoSetPos \/ DoReplaceValues
-        \/ DoSetValues \/ DoAddAttribute \/ DoToggleStrict \/ DoCopy \/ DoNewSibling \/ DoMutateList
-        \/ DoSetLagsLeads \/ DoSolve
+Next == nops < Budget /\ \E op \in Offered : Do(op)     \* budget first: no alphabet is built in terminal states
 
 Spec == Init /\ [][Next]_vars
 Done == nops = Budget
